@@ -244,10 +244,11 @@ FirstReady ==
 
 ParseCb(q) == Cb(WithCtx([name |-> "parse", q |-> q.id]))
 
-\* Messages are discarded while skipping, up to the next Sync.  A Terminate
-\* may be honoured instead (E2).
+\* Messages are discarded while skipping, up to the next Sync.  A Terminate is
+\* not discarded: it ends the connection (C19 quantifies over every command
+\* history; the discard rule of C06 is about the messages of the batch).
 DoDiscard ==
-    /\ Reading("ready") /\ skip /\ Head1.t \notin {"S"}
+    /\ Reading("ready") /\ skip /\ Head1.t \notin {"S", "X"}
     /\ Head1.t \notin {"Tiny", "Huge"}
     /\ Consume
     /\ emit' = <<>>
@@ -498,8 +499,8 @@ DoStrayCopy ==
 
 TermCb == Cb(WithCtx([name |-> "terminate"]))
 
-\* Terminate: the hook runs exactly once and the connection is closed.
-\* While discarding it may be honoured or discarded (E2; see DoDiscard).
+\* Terminate: the hook runs exactly once and the connection is closed - also
+\* while discarding.
 DoTerminate ==
     /\ Reading("ready") /\ Head1.t = "X"
     /\ Consume
